@@ -5,8 +5,11 @@
 mod exec;
 mod exec2;
 mod exec3;
+mod exec4;
+mod sources;
 mod gen;
 mod gen2;
+mod gen3;
 mod malformed;
 mod props;
 mod registry;
